@@ -613,7 +613,9 @@ void rename(const std::string& old_filename, const std::string& new_filename) {
 
 void unlink(const string& filename, bool recursive) {
   if (recursive) {
-    if (isdir(filename)) {
+    // lisdir, not isdir: a symbolic link to a directory is an entry to remove,
+    // not a directory to descend into
+    if (lisdir(filename)) {
       for (const string& item : list_directory(filename)) {
         unlink(filename + "/" + item, true);
       }
